@@ -48,6 +48,19 @@ def run(ck, ctx):
     g = I.g
     func = "RegionGeom.throw"
 
+    def run_accessor(acc):
+        """call obj.<acc>() whether the accessor is a def in the class body or a function assigned there"""
+        if I.find_method(D.ci, acc) is not None:
+            return I.run_method(D.obj, acc, [], st=D.st.copy())
+        st2 = D.st.copy()
+        try:
+            v = I.load_attr(D.obj, acc, st2, None, None)
+        except Exception:       # noqa: BLE001
+            return None
+        if v.op == "BoundMethod" and v.args[1].op in ("Func", "Closure"):
+            return I.run(v.args[1], [v.args[0]], st=st2)
+        return None
+
     # ---------------------------------------------------------------- R02.1 ranges
     def ranges():
         rf = RangeFacet(I)
@@ -76,10 +89,8 @@ def run(ck, ctx):
         want = ("SEL", ("EV", "thrown"), g.vn(em))
         n = 0
         for acc, (attrname, _u) in ACCESSORS.items():
-            if I.find_method(D.ci, acc) is None:
-                continue
-            r = I.run_method(D.obj, acc, [], st=D.st.copy())
-            if r.value is None:
+            r = run_accessor(acc)
+            if r is None or r.value is None:
                 continue
             n += 1
             c = lc.of(r.value)
@@ -174,10 +185,10 @@ def run(ck, ctx):
             ck.ob("R02.4", f"{name} is in {want!r}", Un.definite(u) and u.ang == want.ang and not u.dims,
                   D.A(name), func, f"derived unit {u!r}")
         for acc, (attrname, want) in ACCESSORS.items():
-            if want is None or I.find_method(D.ci, acc) is None:
+            if want is None:
                 continue
-            rr = I.run_method(D.obj, acc, [], st=D.st.copy())
-            if rr.value is None:
+            rr = run_accessor(acc)
+            if rr is None or rr.value is None:
                 continue
             u = uf.of(rr.value)
             ck.ob("R02.4", f"accessor {acc}() returns {want!r}", Un.definite(u) and u.ang == want.ang, rr.value,
